@@ -9,7 +9,7 @@ package rp
 // possible clock reading of the call; the 500ms terms are time.Round(time.Second).
 
 //@ func rp.VerifyIDToken
-//@   requires valid(v) && v.Offset >= 0
+//@   requires valid(v)
 //@   ensures clock: old(wallclock) <= wallclock
 //@   ensures sound-valid: err == nil ==> valid(claims)
 //@   ensures sound-iss: err == nil ==> claims.GetIssuer() == v.Issuer
@@ -44,8 +44,15 @@ package rp
 //@   ensures iff: err == nil <==> atHash == "" || (hashBitsOf(str(sigAlgorithm)) != 0 && atHash == hashString(hashBitsOf(str(sigAlgorithm)), accessToken, true))
 
 //@ func rp.VerifyTokens
-//@   requires valid(v) && v.Offset >= 0
+//@   requires valid(v)
 //@   ensures idtoken: err == nil ==> callres("rp.VerifyIDToken", 1) == nil && claims == callres("rp.VerifyIDToken", 0)
 //@   ensures at-hash: err == nil ==> claims.GetAccessTokenHash() == ""
 //@        || claims.GetAccessTokenHash() == hashString(hashBitsOf(str(claims.GetSignatureAlgorithm())), accessToken, true)
 //@   ensures zero-on-error: err != nil ==> iszero(claims)
+
+// (nil, nil) is a documented outcome of these helpers (no redirect / nothing to verify): callers
+// must not rely on the (value, nil) idiom.
+//@ func rp.DeviceAccessToken
+//@   requires valid(rp)
+//@ func rp.RefreshTokens
+//@   requires valid(rp)
